@@ -22,7 +22,11 @@ for d in sorted(glob.glob(os.path.join(VERIF, "seeded", "C*"))):
             if not os.path.isdir(root):
                 continue
             out = f"/tmp/eval_{sid}_{tag}.json"
-            subprocess.run(["/venv/bin/python", os.path.join(root, "tools", "run_seeded.py"), patch, "--json", out], capture_output=True, text=True)
+            if os.path.exists(out):
+                os.unlink(out)
+            pr = subprocess.run(["/venv/bin/python", os.path.join(root, "tools", "run_seeded.py"), patch, "--json", out], capture_output=True, text=True)
+            if not os.path.exists(out):
+                sys.exit(f"run_seeded failed for {sid} ({tag}): {pr.stdout[-300:]} {pr.stderr[-300:]}")
             r = json.load(open(out))
             res[tag] = {k: {"exit": v["exit"], "rules": v["rules"]} for k, v in r.items() if v["exit"] != 0}
         # "at_collection" freezes what the checks said the first time this change was evaluated
